@@ -7,17 +7,25 @@ import (
 	"net/rpc"
 	"os"
 	"sync"
+	"sync/atomic"
+	"time"
 
 	plugin "github.com/hashicorp/go-plugin"
 )
 
 var earlyOnce sync.Once
+var jitterState uint64
 
 // installHooks makes the named verifhook points of go-plugin act for this process: exit at the
 // configured crash point; write the "before attach" stdio bytes once Serve has swapped os.Stdout.
 func installHooks() {
 	plugin.VerifSetHook(func(name string, id uint32) {
 		crashIf(name)
+		if cfg.JitterUs > 0 {
+			x := atomic.AddUint64(&jitterState, 0x9E3779B97F4A7C15)
+			x ^= x >> 31
+			time.Sleep(time.Duration(x%uint64(cfg.JitterUs)) * time.Microsecond)
+		}
 		if name == "serve.stdio-swapped" {
 			earlyOnce.Do(func() {
 				if len(cfg.EarlyStdout) > 0 {
